@@ -1177,5 +1177,13 @@ def c07(tier, seed):
     scs2 += known_scenarios("C07", "canvas")
     scs2 += repo_test_scenarios("C07", v)
     canvas_validate("C07", v, scs2, "canvas", {"C07"})
+    # in-domain geometry with decimal coordinates (curves, arcs - thousands of monotonicity tests and unit divides with
+    # unrounded f32 values -, arbitrary well-conditioned transforms; fills, clips, strokes): none may panic, abort or hang
+    geo = drive("C07", "curve-float", seed + 7, 6000 if th else 1500) + drive("C07", "stroke-float", seed + 7, 2000 if th else 500)
+    for g in geo:
+        g.pop("quantize", None)       # (no outline needed: only the outcome is examined)
+        g["light"] = True
+    geo += drive("C07", "arc-fuzz", seed + 7, 40000 if th else 8000)
+    t, _ = simple_validate("C07", v, geo, "geometry", "Trace_NoPanic", sigfn=lambda sc, tup: {"fam": "geometry", "what": tup[3] if len(tup) > 3 else "?"})
     v.samples = [scs[0], scs[len(scs) // 2], scs2[0]]
     return v.finish()
